@@ -225,16 +225,21 @@ def _nmap(x):
     return {int(i): T.map_of_sexp(m) for i, m in x}
 
 
-DIS_KEYS = ('ins', 'outs', 'annos', 'clos', 'finished', 'driver')
+DIS_KEYS = ('ins', 'outs', 'annos', 'clos', 'finished', 'driver', 'defs_in')
 BAD_KEYS = ('fix', 'cover', 'taint', 'least')
 
 
 def correspondence(run, jobs, stats, dis):
     n = 0
     by_an = {}
+    seen_an = set()
     for j in jobs:
         res = j.get('res')
         an, fi = j['an'], j['fi']
+        if id(an) not in seen_an:
+            seen_an.add(id(an))
+            if an.diverged is None and an.defs_mismatch:
+                dis['defs_in'].append({'program': j['prog'].source, 'key': j['prog'].key, 'mismatch': an.defs_mismatch[:3]})
         where = {'program': j['prog'].source, 'function': fi.fdef.name, 'key': j['prog'].key}
         if res is None:
             dis['driver'].append(dict(where, answer=j.get('res_raw')))
